@@ -61,7 +61,9 @@ def gd(fcn: Callable[..., torch.Tensor], x0: torch.Tensor, params: List,
             break
 
         fprev = f
-    x = stop_cond.get_best_x(x)
+    # the point reached by the last step has not been evaluated yet
+    flast = fcn(x, *params)[0] if stop_cond.converged() else None
+    x = stop_cond.get_best_x(x, flast)
     return x
 
 def adam(fcn: Callable[..., torch.Tensor], x0: torch.Tensor, params: List,
@@ -143,7 +145,9 @@ def adam(fcn: Callable[..., torch.Tensor], x0: torch.Tensor, params: List,
             break
 
         fprev = f
-    x = stop_cond.get_best_x(x)
+    # the point reached by the last step has not been evaluated yet
+    flast = fcn(x, *params)[0] if stop_cond.converged() else None
+    x = stop_cond.get_best_x(x, flast)
     return x
 
 class TerminationCondition(object):
@@ -197,7 +201,10 @@ class TerminationCondition(object):
             self._best_df = df
         return res
 
-    def get_best_x(self, x: torch.Tensor) -> torch.Tensor:
+    def converged(self) -> bool:
+        return self._ever_converge
+
+    def get_best_x(self, x: torch.Tensor, f: Optional[torch.Tensor] = None) -> torch.Tensor:
         # usually user set maxiter == 0 just to wrap the minimizer backprop
         if not self._ever_converge and self._max_i > -1:
             msg = ("The minimizer does not converge after %d iterations. "
@@ -205,6 +212,9 @@ class TerminationCondition(object):
                    (self._max_i, self._best_dxnorm, self._best_df, self._best_f))
             warnings.warn(msg)
             assert isinstance(self._best_x, torch.Tensor)
+            return self._best_x
+        elif f is not None and self._best_x is not None and float(f.detach().item()) > self._best_f:
+            # converged, but a point visited before (e.g. the initial guess) is better than the last one
             return self._best_x
         else:
             return x
